@@ -642,7 +642,12 @@ func checkIDMaps(c *Check) {
 		for _, w := range ws {
 			files[w.file] = true
 		}
-		if len(files) == 3 && (fn == nil || len(f.Blocks) < len(fn.Blocks)) {
+		// the three writes are three distinct steps of this function (not one call of a wrapper around the writer)
+		sites := map[ssa.CallInstruction]bool{}
+		for _, w := range ws {
+			sites[w.site] = true
+		}
+		if len(files) == 3 && len(sites) == 3 && (fn == nil || len(f.Blocks) < len(fn.Blocks)) {
 			fn, writes = f, ws
 		}
 	}
